@@ -86,9 +86,9 @@ class HsmsRig:
                 return self.conn
 
         self.a = secsgem.hsms.HsmsProtocol(SA(connect_mode=mk.ACTIVE if a_active else mk.PASSIVE, device_id=0x1234,
-                                              device_type=secsgem.common.DeviceType.HOST, t3=2, t6=2))
+                                              device_type=secsgem.common.DeviceType.HOST, t3=20, t6=20))
         self.b = secsgem.hsms.HsmsProtocol(SB(connect_mode=mk.PASSIVE if a_active else mk.ACTIVE, device_id=0x1234,
-                                              device_type=secsgem.common.DeviceType.EQUIPMENT, t3=2, t6=2))
+                                              device_type=secsgem.common.DeviceType.EQUIPMENT, t3=20, t6=20))
         self.ca, self.cb = self.a._connection, self.b._connection  # pylint: disable=protected-access
         self.ca.peer, self.cb.peer = self.cb, self.ca
         self.sent = {"a": [], "b": []}
@@ -111,7 +111,7 @@ class HsmsRig:
         self.a.enable()
         self.b.enable()
         sel = secsgem.hsms.connection_state_machine.ConnectionState.CONNECTED_SELECTED
-        t_end = time.time() + 8
+        t_end = time.time() + 40
         while time.time() < t_end:
             if self.a.connection_state.current == sel and self.b.connection_state.current == sel:
                 return True
@@ -133,7 +133,7 @@ def hsms_section(res, rng, drv, n_rigs, n_msgs):
         rig = HsmsRig(rr.chance(1, 2), seg, [0.0])
         try:
             if not rig.up():
-                res.violate("c20d-not-selected", "two bare HSMS endpoints over the in-memory link did not reach SELECTED within 8 s", {"seg": seg})
+                res.violate("c20d-not-selected", "two bare HSMS endpoints over the in-memory link did not reach SELECTED within 40 s", {"seg": seg})
                 continue
             for direction in ("a", "b"):
                 snd, rcv = (rig.a, rig.b) if direction == "a" else (rig.b, rig.a)
@@ -152,7 +152,7 @@ def hsms_section(res, rng, drv, n_rigs, n_msgs):
                         oks.append(snd.send_stream_function(Fn(st, fn, w, K.build_var(s, v))))
                     except Exception as exc:  # noqa: BLE001
                         oks.append(hlib.errkind(exc))
-                t_end = time.time() + 6
+                t_end = time.time() + 30
                 while time.time() < t_end and len(rig.got[rkey]) - n0 < len(msgs):
                     time.sleep(0.003)
                 time.sleep(0.01)
@@ -234,9 +234,9 @@ def secsi_section(res, rng, drv, n_pairs, n_msgs):
 
                     t = threading.Thread(target=go, daemon=True)
                     t.start()
-                    t.join(20)
+                    t.join(60)
                     oks.append(out.get("r", "blocked"))
-                t_end = time.time() + 4
+                t_end = time.time() + 30
                 while time.time() < t_end and len(pair.got[rkey]) - n0 < len(msgs):
                     time.sleep(0.003)
                 time.sleep(0.01)
